@@ -87,7 +87,7 @@ struct M {
         return r;
     }
 };
-static inline PV nd_pv() { return (PV)vf_nd_u32(); }
+static inline PV nd_pv() { return (PV)lg_nd_payload(); }
 static inline u64 nd_idx(unsigned maxv) { u64 i = vf_nd_u8(); vf_assume(i <= maxv); return i; }
 // exact-size block whose bytes are all solver variables (own function: its loop gets its own unwind bound)
 extern "C" __attribute__((noinline)) void* d_sym_block(u64 n)
